@@ -7,6 +7,7 @@
   `st` has, labware by labware and well by well, exactly the tracked volumes of `w`.
 -/
 import Robotools.Props.C03
+import Robotools.Proofs.AmtLemmas
 import Mathlib.Tactic.Linarith
 namespace Robotools
 namespace C01
@@ -76,6 +77,64 @@ theorem record_address (cfg : Cfg) (L : Labware) (isAsp : Bool) (kw : KW) (s : S
     subst h
     cases hr
 
+/-! ### Composition -/
+
+/-- One traceable operation from a good state in which the replay mirrors volumes and amounts. -/
+theorem step_amounts (labs₀ : List Labware) (w : World) (hwf : WF w) (op : Op)
+    (hop : Amt.traceable op = true) (hG : Amt.Good w) (hinv : Amt.AInv w.cfg.dev labs₀ w)
+    (hok : (w.step op).2 = none) :
+    Amt.AInv w.cfg.dev labs₀ (w.step op).1 ∧ Amt.Good (w.step op).1 :=
+  Amt.compile_ablock (labs₀ := labs₀) w hwf op hop w rfl hG hinv hok
+
+/-- **C01 (composition).**  For every program of traceable worklist operations (transfers with or
+    without splitting, within one labware or between labware, in any order, plus the record-only
+    operations) that runs to the end on well-formed labware with a well-formed composition table,
+    the independent interpreter — which knows nothing of fractions: it moves *absolute amounts* with
+    the liquid, proportionally on every aspirate — ends with, in every real well and for every
+    component, exactly `fraction × volume` of what the `Labware` objects report.  So the composition
+    the user inspects is the composition the executed file produces. -/
+theorem replay_composition (w₀ : World) (hwf : WF w₀) (hgood : Amt.Good w₀) (h0 : w₀.recs = [])
+    (ops : List Op) (hops : ∀ op ∈ ops, Amt.traceable op = true) (hok : (w₀.run ops).2 = none) :
+    ∃ st, (RState.ofLabs w₀.labs).run w₀.cfg.dev (w₀.run ops).1.recs = some st
+      ∧ Match st (w₀.run ops).1 ∧ Amt.AmtOK st (w₀.run ops).1 := by
+  have hinv0 : Amt.AInv w₀.cfg.dev w₀.labs w₀ :=
+    ⟨RState.ofLabs w₀.labs, by rw [h0]; rfl, match_ofLabs w₀, Amt.amtOK_ofLabs w₀ hgood⟩
+  generalize hlabs : w₀.labs = labs₀ at hinv0 ⊢
+  generalize hdev : w₀.cfg.dev = dev at hinv0 ⊢
+  clear h0 hlabs
+  induction ops generalizing w₀ with
+  | nil => exact hinv0
+  | cons op ops ih =>
+    have hop := hops op List.mem_cons_self
+    unfold World.run at hok ⊢
+    cases hx : w₀.step op with
+    | mk w' e =>
+      rw [hx] at hok
+      cases e with
+      | some e => cases hok
+      | none =>
+        obtain ⟨hinv, hG'⟩ := step_amounts labs₀ w₀ hwf op hop hgood (by rw [hdev]; exact hinv0)
+          (by rw [hx])
+        rw [hdev, hx] at hinv
+        rw [hx] at hG'
+        have hcfg : w'.cfg = w₀.cfg := by have := step_cfg w₀ op; rw [hx] at this; exact this
+        have hwf' : WF w' := by have := step_wf w₀ op hwf; rw [hx] at this; exact this
+        exact ih w' hwf' hG' (fun o ho => hops o (List.mem_cons_of_mem _ ho)) hok
+          (by rw [hcfg]; exact hdev) hinv
+
+/-- What `AmtOK` means well by well: the replayed amount of every component equals the tracked
+    fraction times the tracked volume. -/
+theorem amount_well {st : RState} {w : World} (hM : Match st w) (hA : Amt.AmtOK st w) (l : Nat)
+    (L : Labware) (hL : w.labs[l]? = some L) (i : Nat) (hi : i < L.vols.length) :
+    ∃ R wl, st.labs[l]? = some R ∧ R.wells[i]? = some wl ∧ wl.vol = L.vol i
+      ∧ ∀ k, amtOf wl.amts k = L.frac i k * L.vol i := by
+  obtain ⟨R, hR, hRL⟩ := forall₂_getElem? hM hL
+  obtain ⟨R2, hR2, hRA⟩ := forall₂_getElem? hA hL
+  rw [hR] at hR2; cases hR2
+  have hiR : i < R.wells.length := by rw [hRL.length]; exact hi
+  have hw : R.wells[i]? = some R.wells[i] := List.getElem?_eq_getElem hiR
+  exact ⟨R, R.wells[i], hR, hw, hRL.vol_eq hw, (hRA i _ hw).amt⟩
+
 /-! ### Two-decimal rendering -/
 
 theorem roundHalfEven_close (x : Rat) : |(roundHalfEven x : Rat) - x| ≤ 1 / 2 := by
@@ -126,6 +185,37 @@ example : (exW.run exOps).2 = none ∧ (exW.run exOps).1.recs.length = 14 := by 
 example : ((RState.ofLabs exW.labs).run .evo (exW.run exOps).1.recs).map
     (fun st => st.labs.map (fun L => L.wells.map (·.vol)))
     = some [[4750, 4970], [250, 0, 0, 0, 0, 30]] := by decide +kernel
+
+/-! Non-vacuity of `replay_composition`: the same world is good, the program is traceable, and the replayed
+    amounts of the component "water" are the tracked fractions times the tracked volumes. -/
+example : Amt.Good exW := by
+  intro L hL
+  simp only [exW, List.mem_cons, List.not_mem_nil, or_false] at hL
+  rcases hL with rfl | rfl
+  · refine ⟨⟨by decide +kernel, by decide +kernel, ?_⟩, ⟨by decide, ?_, ?_⟩⟩
+    · intro v hv
+      simp only [exTrough, List.mem_cons, List.not_mem_nil, or_false, or_self] at hv
+      subst hv; exact ⟨by decide +kernel, by decide +kernel⟩
+    · intro p hp
+      simp only [exTrough, List.mem_cons, List.not_mem_nil, or_false] at hp
+      subst hp; rfl
+    · intro p hp f hf
+      simp only [exTrough, List.mem_cons, List.not_mem_nil, or_false] at hp
+      subst hp
+      simp only [List.mem_cons, List.not_mem_nil, or_false, or_self] at hf
+      subst hf; decide +kernel
+  · refine ⟨⟨by decide +kernel, by decide +kernel, ?_⟩, ⟨by decide, ?_, ?_⟩⟩
+    · intro v hv
+      simp only [exPlate, List.mem_cons, List.not_mem_nil, or_false, or_self] at hv
+      subst hv; exact ⟨by decide +kernel, by decide +kernel⟩
+    · intro p hp; simp [exPlate] at hp
+    · intro p hp; simp [exPlate] at hp
+example : ∀ op ∈ exOps, Amt.traceable op = true := by decide
+example : ((RState.ofLabs exW.labs).run .evo (exW.run exOps).1.recs).map
+    (fun st => st.labs.map (fun L => L.wells.map (fun wl => amtOf wl.amts "water")))
+    = some [[4750, 4970], [250, 0, 0, 0, 0, 30]] := by decide +kernel
+example : (exW.run exOps).1.labs.map (fun L => (List.range L.vols.length).map fun i => L.frac i "water" * L.vol i)
+    = [[4750, 4970], [250, 0, 0, 0, 0, 30]] := by decide +kernel
 
 end C01
 end Robotools
